@@ -62,15 +62,23 @@ def source_hash():
   return h.hexdigest()
 
 
+def modules_of(prop):
+  """A property's theorem modules: Props/<prop>.lean plus any Props/<prop><Suffix>.lean (e.g. C02Lip, C19Deriv)."""
+  import glob
+  files = sorted(glob.glob(os.path.join(LEAN, "TflModel", "Props", prop + "*.lean")))
+  return [(f, "TflModel.Props." + os.path.basename(f)[:-5]) for f in files]
+
+
 def theorems_of(prop):
-  """Property theorems = every `theorem` in Props/<prop>.lean (namespace-qualified)."""
+  """Property theorems = every `theorem` in the property's Props modules (namespace-qualified)."""
   path = os.path.join(LEAN, "TflModel", "Props", prop + ".lean")
-  if not os.path.exists(path):
-    return path, []
-  src = strip_comments(open(path).read())
-  ns = re.search(r"^namespace\s+(\S+)", src, flags=re.M)
-  prefix = ns.group(1) + "." if ns else ""
-  return path, [prefix + m for m in re.findall(r"^theorem\s+(\S+)", src, flags=re.M)]
+  names = []
+  for f, _ in modules_of(prop):
+    src = strip_comments(open(f).read())
+    ns = re.search(r"^namespace\s+(\S+)", src, flags=re.M)
+    prefix = ns.group(1) + "." if ns else ""
+    names += [prefix + m for m in re.findall(r"^theorem\s+(\S+)", src, flags=re.M)]
+  return path, names
 
 
 def build_and_audit(prop, tier, regen=None):
@@ -80,7 +88,8 @@ def build_and_audit(prop, tier, regen=None):
     regen()
   # build only this property's theorems and the driver: a stale or broken generated table of another
   # property (C11/C16 regenerate theirs from /repo) must not break this one
-  rc, out = sh(["lake", "build", "TflModel.Props." + prop, "tfldriver"], cwd=LEAN, timeout=3000)
+  mods = [m for _, m in modules_of(prop)] or ["TflModel.Props." + prop]
+  rc, out = sh(["lake", "build"] + mods + ["tfldriver"], cwd=LEAN, timeout=3000)
   if rc != 0:
     problems.append({"kind": "lake-build", "detail": out[-3000:]})
     return {"ok": False, "problems": problems, "theorems": []}
@@ -103,7 +112,8 @@ def build_and_audit(prop, tier, regen=None):
   if thms is None:
     audit = os.path.join(LEAN, ".lake", "Audit_%s.lean" % prop)
     with open(audit, "w") as f:
-      f.write("import TflModel.Props.%s\n" % prop)
+      for m in mods:
+        f.write("import %s\n" % m)
       for n in names:
         f.write("#print axioms %s\n" % n)
     rc, out = sh(["lake", "env", "lean", audit], cwd=LEAN, timeout=1800)
@@ -130,8 +140,8 @@ def build_and_audit(prop, tier, regen=None):
     problems.append({"kind": "no-theorems", "detail": path})
   checker = "cd lean && lake build && lake env lean .lake/Audit_%s.lean" % prop
   if tier == "thorough":
-    rc, out = sh(["lake", "env", "leanchecker", "TflModel.Props." + prop], cwd=LEAN, timeout=3000)
-    checker += " && lake env leanchecker TflModel.Props." + prop
+    rc, out = sh(["lake", "env", "leanchecker"] + mods, cwd=LEAN, timeout=3000)
+    checker += " && lake env leanchecker " + " ".join(mods)
     if rc != 0:
       problems.append({"kind": "leanchecker", "detail": out[-2000:]})
   return {"ok": not problems, "problems": problems, "theorems": thms, "checker_cmd": checker}
